@@ -104,13 +104,16 @@ def _ref_regrid(vals, f, d, tf, td):
 
 
 def _targets(name, f, d):
+    if name == "near":
+        # a target that differs from the source only in the 8th digit (float32 round trip / 1e-6 deg)
+        return np.float32(f).astype(np.float64), np.array(d) + 1e-6
     t = TGT[name]
     if t is None:
         return np.array(f), np.array(d)
     return (np.array(t["freq"]) if "freq" in t else None), (np.array(t["dir"]) if "dir" in t else None)
 
 
-QUICK = [dict(src="s4", tgt=t, m0=False) for t in ("same", "fine_dir", "seam_dir", "ext_freq", "both")] + \
+QUICK = [dict(src="s4", tgt=t, m0=False) for t in ("same", "near", "fine_dir", "seam_dir", "ext_freq", "both")] + [dict(src="o6", tgt="near", m0=True)] + \
         [dict(src="u4", tgt=t, m0=False) for t in ("same", "seam_dir", "shift_dir")] + \
         [dict(src="dup", tgt=t, m0=False) for t in ("fine_dir", "seam_dir")] + \
         [dict(src="s4", tgt="both", m0=True), dict(src="u4", tgt="fine_freq", m0=True), dict(src="o6", tgt="coarse_dir", m0=True), dict(src="s4", tgt="same", m0=True)]
